@@ -226,6 +226,26 @@ def symbolic():
         out["Dlgn_generic"] = (_layers(md.Dlgn(in_dim=12, n_layers=3, neurons_per_layer=k * 4, class_count=4, tau=TAU_PROBE, **kw)), "1", "[3; 4]", 4)
         out["CNN"] = (_layers(mc.CNN(class_count=10, tau=TAU_PROBE, **kw)), "1", "[28; 28]", 10)
         out["RandomlyConnectedNN"] = (_layers(mn.RandomlyConnectedNN(in_dim=12, k=k * 4, layers=3, class_count=4, tau=TAU_PROBE, **kw)), "1", "[3; 4]", 4)
+        # the connection scheme given to a class must reach every logic layer it builds (convolutions, residual blocks, dense)
+        def _logic_stubs(m):
+            for ch in m.modules():
+                if getattr(ch, "kind", None) in ("conv", "dense"):
+                    yield ch
+        for nm, build in (("ClgnMnist", lambda **o: mc.ClgnMnist(k_num=2, **o)), ("ClgnCifar10", lambda **o: mc.ClgnCifar10(n_bits=2, k_num=2, tau=TAU_PROBE, **o)),
+                          ("ClgnCifar10Res", lambda **o: mc.ClgnCifar10Res(n_bits=2, k_num=2, tau=TAU_PROBE, **o)),
+                          ("ClgnCifar10Tiny", lambda **o: mc.ClgnCifar10Tiny(k_num=2, **o)),
+                          ("ClgnCifar10Mini", lambda **o: mc.ClgnCifar10Mini(k_num=2, tau=TAU_PROBE, **o)),
+                          ("CNN", lambda **o: mc.CNN(class_count=10, tau=TAU_PROBE, **o)),
+                          ("DlgnMnist", lambda **o: md.DlgnMnist(neurons_per_layer=400, tau=TAU_PROBE, **o)),
+                          ("DlgnCifar10", lambda **o: md.DlgnCifar10(n_bits=2, n_layers=3, neurons_per_layer=4000, tau=TAU_PROBE, **o)),
+                          ("ClgnMnistSmall", lambda **o: mc.ClgnMnistSmall(**o)), ("ClgnCifar10Small", lambda **o: mc.ClgnCifar10Small(**o)),
+                          ("ClgnCifar10SmallRes", lambda **o: mc.ClgnCifar10SmallRes(**o)), ("ClgnCifar10Tiny32", lambda **o: mc.ClgnCifar10Tiny32(**o)),
+                          ("DlgnMnistSmall", lambda **o: md.DlgnMnistSmall(**o))):
+            built = build(connections="unique", **kw)
+            stubs_ = list(_logic_stubs(built))
+            wrong = [type(x).__name__ for x in stubs_ if x.args.get("connections") != "unique"]
+            if not stubs_ or wrong:
+                _fail(f"{nm}(connections='unique') does not hand the scheme to {wrong or 'any logic layer'}")
         # every fixed-scale subclass must construct (argument plumbing) and fix k
         fixed = {}
         for nm in ("ClgnMnistSmall", "ClgnMnistMedium", "ClgnMnistLarge", "ClgnCifar10Small", "ClgnCifar10SmallRes", "ClgnCifar10Medium",
